@@ -1,5 +1,5 @@
 import Drivers.Common
-import SpecVerif.Writer.Api
+import SpecVerif.Writer.Ref
 open SpecVerif SpecVerif.Writer Drivers
 
 def F := nativeFloat
@@ -81,12 +81,19 @@ def step (line : String) : String :=
     let calls := (prog.splitOn ";").map parseCall
     let (s, outs) := run calls pre
     let toks := " ".intercalate (outs.map tok)
+    -- programs marked with an expected walk are well nested: the pinned layout must give the same bytes
+    let refNote := if (mode.splitOn ",x=").length > 1 then
+        (match refRun calls, s.built with
+         | some r, some b => if r == b then "" else " | REF-MISMATCH"
+         | none, _ => if ((prog.splitOn "any").length > 1 || (prog.splitOn "copy").length > 1 || (prog.splitOn "merge").length > 1) then "" else " | REF-UNSUPPORTED"
+         | some _, none => " | REF-MISMATCH")
+      else ""
     match s.built with
-    | none => toks ++ " | - | - | -"
+    | none => toks ++ " | - | - | -" ++ refNote
     | some b =>
       toks ++ " | " ++ hexOf b ++ " | " ++
         showRes (fun (n : Nat) => toString n) (parseValue F (2 * b.length + 2) b) ++ " | " ++
-        walk F (b.length + 1) b
+        walk F (b.length + 1) b ++ refNote
   | _ => "bad-op"
 
 def main : IO Unit := do
